@@ -177,6 +177,13 @@ def main(pid, tier, seed, jobs=None):
     names = [s["name"] for s in shards]
     assert len(set(names)) == len(names), "duplicate shard names"
     jobs = jobs or int(os.environ.get("VERIF_JOBS", "16"))
+    # the whole run is sized by total wall time: when the sum of the shard CPU budgets exceeds what `jobs` cores can do in
+    # VERIF_WALL_<TIER> seconds, every budget is scaled down (a shard that does not close is reported as not exhausted)
+    wall_cap = float(os.environ.get("VERIF_WALL_" + tier.upper(), "600" if tier == "quick" else "1500"))
+    total = sum(s.get("budget", 60) for s in shards)
+    scale = min(1.0, wall_cap * jobs / total) if total else 1.0
+    if scale < 1.0:
+        shards = [dict(s, budget=max(20, int(s.get("budget", 60) * scale))) for s in shards]
     order = sorted(range(len(shards)), key=lambda i: -shards[i].get("budget", 60))
     results = _run_all(pid, [shards[i] for i in order], jobs)
     by_name = {s["name"]: s for s in shards}
